@@ -41,3 +41,13 @@ func VerifMinSeqNo(rows []VerifReplica) gocbcore.SeqNo {
 func VerifNewClient(cfg *config.Dcp, agent *gocbcore.Agent, metaAgent *gocbcore.Agent, dcpAgent *gocbcore.DCPAgent) Client {
 	return &client{agent: agent, metaAgent: metaAgent, dcpAgent: dcpAgent, config: cfg}
 }
+
+// VerifCheckpointID exposes getCheckpointID; ok is false when it panics (group name with a dot).
+func VerifCheckpointID(vbID uint16, groupName string) (id []byte, ok bool) {
+	defer func() {
+		if recover() != nil {
+			id, ok = nil, false
+		}
+	}()
+	return getCheckpointID(vbID, groupName), true
+}
